@@ -811,6 +811,9 @@ def run(ctx):
     # default count pattern on namespaced source elements (props/C17_ns.py; added after seed C17_d)
     from props import C17_ns
     C17_ns.run_part(ctx)
+    # fractional values of the value attribute, ties above all (props/C17_round.py; added after seed C17_g)
+    from props import C17_round
+    C17_round.run_part(ctx)
     return ctx.finish(LEVEL, explanation="theorems over the Gallina model of xsl:number counting (zipper walks + counters table) and formatting + "
                       "correspondence of the extracted model with whole transformations of the rebuilt library + independent Python / count() oracle and decoder")
 
